@@ -19,16 +19,16 @@ claim("C06", "model_checking", "fsmx",
       "Exhaustive enumeration of all histories up to the stated depth / deviation bounds of two real swap services on a simulated world; every coop_close the taker sends is checked against the ground-truth payment table, and every state in which the payment succeeded is driven through a fair continuation.",
       E1NOTE, "DESIGN.md §5 C06")
 claim("C13", "model_checking", "fsmx",
-      "explicit-state BFS by replay with a crash point at every effect operation; monitor over the ordered log of durable writes and sends",
-      "All histories (bounded) of both Liquid taker roles incl. crash at every store write / service call and restarts; the oracle checks that the latest durable record carries the anchor when the pubkey first leaves and that it never changes.",
+      "explicit-state BFS by replay with a crash point at every effect operation; monitor over the ordered log of durable writes and sends ; deviation: the persisted record loses its anchor and the node recovers from it",
+      "All histories (bounded) of both Liquid taker roles incl. crash at every store write / service call and restarts; the oracle checks that the latest durable record carries the anchor when the pubkey first leaves and that it never changes. A record without anchor must never lead to a payment nor get an anchor later.",
       E1NOTE, "DESIGN.md §5 C13")
 claim("C15", "fault_enumeration", "fsmx",
       "crash-point enumeration (every effect operation of every handler) + explicit-state BFS over all continuations after restart",
       "Every store write / message send / wallet / Lightning / watcher call of every explored handler is a crash point; the restarted node runs the real recovery path and all continuations are explored; duplicates are counted on the simulated wallet / payment table / message log.",
       E1NOTE, "DESIGN.md §5 C15")
 claim("C23", "model_checking", "fsmx",
-      "explicit-state BFS by replay; every outgoing payload of both nodes is searched for every secret in all encodings",
-      "All outgoing payloads of all explored histories (four roles, two chains, failure and cancel paths) are searched for every secret the simulation knows.",
+      "explicit-state BFS by replay; every outgoing payload of both nodes is searched for every secret in all encodings + sub-check: every ordered pair (message handed to the real RedundantMessenger, message encoded meanwhile by the real MarshalPeerswapMessage) with every retransmitted copy inspected; faults incl. failing sends",
+      "All outgoing payloads of all explored histories (four roles, two chains, failure and cancel paths) are searched for every secret the simulation knows. Every retransmitted copy is searched as well.",
       E1NOTE, "DESIGN.md §5 C23")
 
 
@@ -36,8 +36,8 @@ ENUMNOTE = ("trusted base: the reference predicate / model written from the prop
             "the checked packages are built with their sync import rewritten to verif/vsync (plain mode = package sync)")
 
 claim("C07", "model_checking", "fsmx",
-      "explicit-state BFS by replay of both maker roles (peer silence, cancel / bad coop_close / invalid message, faults after the wallet broadcast, output orderings, restarts, crash at every effect op) + durable-record invariant + deterministic drain to CSV maturity with real spends validated by the btcd script engine",
-      "Exhaustive (bounded) histories of the real maker state machines; in every state the durable record is compared with the wallet's broadcast log, and every state with locked, unpaid funds is drained to CSV maturity where a consensus-valid refund must reach the simulated chain.",
+      "explicit-state BFS by replay of both maker roles (peer silence, cancel / bad coop_close / invalid message, faults after the wallet broadcast, output orderings, restarts, crash at every effect op) + durable-record invariant + deterministic drain to CSV maturity with real spends validated by the btcd script engine + sub-check: CSV-registration families of the real-watcher block-history BFS with a fair continuation after every history (maturity must be reported)",
+      "Exhaustive (bounded) histories of the real maker state machines; in every state the durable record is compared with the wallet's broadcast log, and every state with locked, unpaid funds is drained to CSV maturity where a consensus-valid refund must reach the simulated chain. Sub-check: from every explored watcher state with an open CSV registration, healthy services and a growing chain must lead to a maturity report (otherwise the refund is never triggered).",
       E1NOTE, "DESIGN.md §5 C07")
 claim("C09", "model_checking", "fsmx",
       "explicit-state BFS bringing the swap into every reachable state, then every message type x sender x id delivered; store bytes / in-memory data / active map compared before and after against the admissibility predicate",
@@ -52,8 +52,8 @@ claim("C16", "model_checking", "fsmx",
       "Every state reached by the bounded search is a start state from which the peer goes silent; a deterministic fair continuation (time, blocks to CSV maturity, restarts, healthy services) must reach a terminal state with the channel released. Exhaustive over the enumerated start states, not a fairness-quantified liveness proof.",
       E1NOTE, "DESIGN.md §5 C16")
 claim("C17", "model_checking", "fsmx",
-      "explicit-state BFS over delivery orders, dropped replies, virtual-time steps across the 10 minute timeout and restarts, under testing/synctest virtual time",
-      "All orders (bounded) of request / agreement / cancel / timeout / restart before the opening transaction for both requester roles and the swap-out responder; cancel state and cancel message are required once 10 virtual minutes have passed.",
+      "explicit-state BFS over delivery orders, dropped replies, virtual-time steps across the 10 minute timeout and restarts, under testing/synctest virtual time ; crash point at every effect operation; answers of the wrong agreement type injected",
+      "All orders (bounded) of request / agreement / cancel / timeout / restart before the opening transaction for both requester roles and the swap-out responder; cancel state and cancel message are required once 10 virtual minutes have passed. ",
       E1NOTE, "DESIGN.md §5 C17")
 claim("C22", "model_checking", "fsmx",
       "explicit-state BFS of maker histories after the announcement under virtual time; interval-agnostic monitor on the send instants of opening_tx_broadcasted",
@@ -100,8 +100,8 @@ claim("C30", "model_checking", "enum",
 ADVNOTE = E1NOTE + "; the maker is a scripted adversary (crafted messages, invoices and on-chain transactions); Liquid in this tier: Bitcoin-format transactions with asset / blinding annotations and a reference validator"
 
 claim("C01", "model_checking", "fsmx",
-      "explicit-state BFS of both taker roles against a scripted adversarial maker (all opening-tx and announcement variants, at most 2-3 deviations, all orders with blocks / re-announcements / time / restarts); ground-truth predicate at every claim-payment attempt",
-      "Exhaustive (bounded) exploration of the real taker state machines and the real Bitcoin validator against every enumerated malicious announcement; the statement's predicate is evaluated from chain ground truth at the instant of every payment attempt.",
+      "explicit-state BFS of both taker roles against a scripted adversarial maker (all opening-tx and announcement variants, at most 2-3 deviations, all orders with blocks / re-announcements / time / restarts); ground-truth predicate at every claim-payment attempt + sub-checks on the real components: bounded-exhaustive enumeration of the real Liquid validator on real confidential / explicit transactions, and the confirmation-registration families of the real-watcher block-history BFS (rpc, electrum, lnd)",
+      "Exhaustive (bounded) exploration of the real taker state machines and the real Bitcoin validator against every enumerated malicious announcement; the statement's predicate is evaluated from chain ground truth at the instant of every payment attempt. The real onchain.LiquidOnChain.ValidateTx is run on every invalid-opening variant x layouts x amounts; the real chain watchers are explored over all block histories (reorgs, faults, mid-call changes) and a confirmation reported for an absent / unconfirmed / too shallow transaction is a C01 violation.",
       ADVNOTE, "DESIGN.md §5 C01")
 claim("C04", "model_checking", "fsmx",
       "explicit-state BFS of both Liquid taker roles (tip moved between all steps, invoice CLTV grid, restarts, records rewritten to protocol 6 and recovered; pay-loop families starting in the paying state with failing / pending first attempts and crash points after every durable write) with an oracle at every payment attempt + grid enumeration of both route/request builders",
@@ -112,8 +112,8 @@ claim("C05", "model_checking", "fsmx",
       "Every payment attempt in every explored history is checked for h_pay + route allowance < confirmation height + 1008.",
       ADVNOTE, "DESIGN.md §5 C05")
 claim("C26", "model_checking", "fsmx",
-      "explicit-state BFS of both maker roles to every history ending in a CSV refund, with the real policy.Policy on a real file and a real peersync.PeerSync; probes after the refund, also after a restart",
-      "In every state reached after a CSV refund the policy file, a policy re-created from it, incoming requests, local initiations and poll / request_poll handling are probed.",
+      "explicit-state BFS of both maker roles to every history ending in a CSV refund, with the real policy.Policy on a real file and a real peersync.PeerSync; probes after the refund, also after a restart ; up to two operator actions on the running policy before the refund; well-formed and unparseable capability payloads; crash points after durable writes, the policy write being one",
+      "In every state reached after a CSV refund the policy file, a policy re-created from it, incoming requests, local initiations and poll / request_poll handling are probed. ",
       E1NOTE + "; real policy file and real bbolt peer store", "DESIGN.md §5 C26")
 
 
@@ -133,20 +133,20 @@ claim("C11", "model_checking", "enum",
       "Full product over the interacting dimensions and all single / pairwise deviations of the others; the first reply (agreement vs cancel) is compared with the conjunction in the statement.",
       E1NOTE, "DESIGN.md §5 C11")
 claim("C12", "model_checking", "enum",
-      "boundary-grid enumeration (incl. int64 / uint64 extremes) of premiums, limits, amounts, fee invoices through the real initiator and responder code paths with a scripted peer; big-integer outflow bounds",
-      "Every grid point is run through the real actions; payments, locked amounts and created invoices are compared with big-integer bounds.",
+      "boundary-grid enumeration (incl. int64 / uint64 extremes) of premiums, limits, amounts, fee invoices through the real initiator and responder code paths with a scripted peer; big-integer outflow bounds + sub-check: operation-sequence BFS on the real premium.Setting (set / delete / default / lookup / reopen) against a persistent-map reference",
+      "Every grid point is run through the real actions; payments, locked amounts and created invoices are compared with big-integer bounds. The rate the responder charges after any sequence of rate operations and reads is compared with the reference map.",
       E1NOTE, "DESIGN.md §5 C12")
 claim("C18", "model_checking", "sched",
-      "stateless DFS over thread schedules with iterative preemption bounding (cooperative scheduler at lock / spawn / wait / environment-call points) on the real swap service + real rpc watcher; deadlock = no enabled thread",
-      "All schedules within the preemption bound of {peer message || block notification || payment || RPC reads || RecoverSwaps} for CSV not yet / just / long matured and maturing mid-run; deadlocks are decided structurally and reported with the lock cycle.",
+      "stateless DFS over thread schedules with iterative preemption bounding (cooperative scheduler at lock / spawn / wait / environment-call points) on the real swap service + real rpc watcher; deadlock = no enabled thread + sub-check: block-history BFS of the real rpc watcher with all its goroutines under virtual time and callbacks that take 2.5 s; no goroutine may wait for a watcher lock 8 s after the last event",
+      "All schedules within the preemption bound of {peer message || block notification || payment || RPC reads || RecoverSwaps} for CSV not yet / just / long matured and maturing mid-run; deadlocks are decided structurally and reported with the lock cycle. Sub-check on the watcher's own goroutine structure (block poller, dispatcher, per-registration observers).",
       SCHEDNOTE, "DESIGN.md §3.6, §5 C18")
 claim("C19", "model_checking", "sched",
-      "the same schedule exploration built with -race; thread hand-off by raw pipe system calls (invisible to the detector), shim locks wrap the real primitives; oracle = zero race reports with access sites in peerswap code",
-      "Every schedule within the bound is executed under the Go race detector, which then sees exactly the program's own happens-before edges; a self-test proves per run that an unsynchronised pair is reported and a mutex-protected pair is not.",
+      "the same schedule exploration built with -race; thread hand-off by raw pipe system calls (invisible to the detector), shim locks wrap the real primitives; oracle = zero race reports with access sites in peerswap code ; harnesses: maker / taker handlers with the real rpc watcher, policy operations, and the peer-sync entry points (poll ticker pass || forced pass || cleanup sweep) on a real bbolt store",
+      "Every schedule within the bound is executed under the Go race detector, which then sees exactly the program's own happens-before edges; a self-test proves per run that an unsynchronised pair is reported and a mutex-protected pair is not. ",
       SCHEDNOTE + "; Go race detector (happens-before, shadow memory)", "DESIGN.md §3.6, §5 C19")
 claim("C20", "model_checking", "enum",
-      "explicit-state BFS by replay over block histories (blocks with / without the tx, mempool, reorgs, RPC errors, stale answers, window / CSV edge jumps, duplicate notifications, chain moving mid-lookup) for the real rpc, Electrum/LWK and LND watchers in synctest bubbles",
-      "All histories up to the stated depth per watcher; every callback is compared with the chain's ground truth at that instant; at most one report per registration.",
+      "explicit-state BFS by replay over block histories (blocks with / without the tx, mempool, reorgs, RPC errors, stale answers, window / CSV edge jumps, duplicate notifications, chain moving mid-lookup) for the real rpc, Electrum/LWK and LND watchers in synctest bubbles ; multi-registration family (three watches on one transaction), lnd with and without transaction index",
+      "All histories up to the stated depth per watcher; every callback is compared with the chain's ground truth at that instant; at most one report per registration. ",
       ENUMNOTE + "; simulated chain views (bitcoind/elementsd RPC, Electrum, lnd chain notifier); go1.26.8 testing/synctest", "DESIGN.md §3.4, §5 C20")
 
 NA_REASON = "check not built yet in this session (planned, see DESIGN.md §5)"
